@@ -174,6 +174,9 @@ def check_C10(o, tier):
                n_quick=200, n_thorough=6000)
     http_check(o, tier, "C10", ["rofs", "upload"], make_view(fields=("code", "dcd", "body", "ct")), RULE % "restart, mix, rofs, upload", monitors_prefix="C10.",
                n_quick=150, n_thorough=4000, stores=("dir",))
+    # repository names next to, above and inside other repositories' layouts: Mem = Dir on the same requests
+    http_check(o, tier, "C10", ["isolation"], make_view(fields=("code", "dcd", "body", "ct")), RULE % "restart, mix, rofs, upload, isolation", monitors_prefix="C10.",
+               n_quick=150, n_thorough=4000)
 
 
 def check_C14(o, tier):
@@ -187,6 +190,9 @@ def check_C14(o, tier):
                n_quick=150, n_thorough=4000, stores=("memdir",))
     http_check(o, tier, "C14", ["switches"], make_view(fields=("code", "dcd", "body")), RULE % "rofs, switches", monitors_prefix="C14.",
                n_quick=250, n_thorough=8000)
+    # legacy layouts (fallback tags that the store converts when it loads the index) opened read-only
+    from . import p_ingest
+    p_ingest.extra_C14(o, tier)
 
 
 def extra_gc(prop):
@@ -213,7 +219,7 @@ def check_C19(o, tier):
     p_config.CHECKS["C19"](o, tier)
     rule = o.cov.get("rule", "")
     http_check(o, tier, "C19", ["switches"], None, rule + " | " + RULE % "switches (HTTP level, all answer fields)", monitors_prefix="C19.",
-               n_quick=200, n_thorough=6000)
+               n_quick=200, n_thorough=6000, extra_monitors=("C14.disabled-accepted",))
 
 
 CHECKS = {"C19": check_C19, "C10": check_C10, "C14": check_C14, "C01": check_C01, "C02": check_C02, "C03": check_C03, "C04": check_C04, "C07": check_C07, "C08": check_C08,
